@@ -2,8 +2,8 @@ SPECIFICATION Spec
 CONSTANTS
   Budget = 3
   SpaceSize = 4
-  MaxMeas = 1
-  Rewards <- PalNP
+  MaxMeas = 2
+  Rewards <- PalNZP
   Accs = {}
   Steps = {0}
   Extras = {0}
